@@ -7,8 +7,9 @@ CONSTANTS
   MaxSteps = 14
   MaxPend = 2
   Kinds = {"do","loop","forin","fn","pcall","co"}
-  Handlers = {"ok","raise","nil","false","nometa"}
+  Handlers = {"ok","raise","raisetbc","nil","false","nometa"}
   ViewHist = 0
   ErrKinds = {"str","tbl"}
   XHandlers = {}
   Battery = FALSE
+  EmitAll = FALSE
